@@ -1,5 +1,5 @@
 import Witverif.Proofs.Scalar
-import Witverif.Generated.CastExprs
+import Witverif.Generated.CastExprs.CSharp
 /-! # C04 (backend half), backend `csharp`: the emitted `Bitcast` expressions
 
 `G.csharp_<Bitcast>_<probe>` lists the expressions the `csharp` generator emitted for that `Bitcast` on the
@@ -11,7 +11,7 @@ recovers every payload bit pattern.  Proof script: `scalar_tac` (fixed). -/
 namespace Witverif.Props.C04Backends.CSharp
 open Witverif.Scalar Witverif.Scalar.Spec
 namespace G
-export Witverif.Generated.CastExprs (csharp_F32ToI32_f32_s32 csharp_I32ToF32_f32_s32 csharp_F64ToI64_f64_s64 csharp_I64ToF64_f64_s64 csharp_I32ToI64_s32_s64 csharp_I64ToI32_s32_s64 csharp_F32ToI64_f32_s64 csharp_I64ToF32_f32_s64 csharp_None_s32_f32 csharp_I32ToI64_u32_f64 csharp_I64ToI32_u32_f64 csharp_F32ToI64_f32_f64 csharp_I64ToF32_f32_f64 csharp_F64ToI64_f64_f32 csharp_I64ToF64_f64_f32)
+export Witverif.Generated.CastExprs (csharp_F32ToI32_f32_s32 csharp_I32ToF32_f32_s32 csharp_F64ToI64_f64_s64 csharp_I64ToF64_f64_s64 csharp_I32ToI64_s32_s64 csharp_I64ToI32_s32_s64 csharp_F32ToI64_f32_s64 csharp_I64ToF32_f32_s64 csharp_None_s32_f32 csharp_I32ToI64_u32_f64 csharp_I64ToI32_u32_f64 csharp_F32ToI64_f32_f64 csharp_I64ToF32_f32_f64 csharp_F64ToI64_f64_f32 csharp_I64ToF64_f64_f32 csharp_I64ToP64_s64_string csharp_P64ToI64_s64_string csharp_I32ToP_s32_string csharp_PToI32_s32_string csharp_F32ToI32_I32ToP_f32_string csharp_PToI32_I32ToF32_f32_string csharp_F64ToI64_I64ToP64_f64_string csharp_P64ToI64_I64ToF64_f64_string)
 end G
 set_option maxRecDepth 8000
 
@@ -141,5 +141,59 @@ theorem csharp_I64ToF64_f64_f32_is_spec : ∀ e ∈ G.csharp_I64ToF64_f64_f32, e
 theorem f64_f32_roundtrip : RoundTrips G.csharp_F64ToI64_f64_f32 G.csharp_I64ToF64_f64_f32 := by
   unfold G.csharp_F64ToI64_f64_f32 G.csharp_I64ToF64_f64_f32; scalar_tac
 example : G.csharp_F64ToI64_f64_f32 ≠ [] ∧ G.csharp_I64ToF64_f64_f32 ≠ [] := by decide
+
+/-- csharp: `I64ToP64` (s64 payload into the i64 slot) is the canonical ABI conversion, all 2^64 patterns -/
+theorem csharp_I64ToP64_s64_string_is_spec : ∀ e ∈ G.csharp_I64ToP64_s64_string, e.IsSpec := by
+  unfold G.csharp_I64ToP64_s64_string; scalar_tac
+
+/-- csharp: `P64ToI64` (i64 slot back to the s64 payload) is the canonical ABI conversion, all 2^64 slot values -/
+theorem csharp_P64ToI64_s64_string_is_spec : ∀ e ∈ G.csharp_P64ToI64_s64_string, e.IsSpec := by
+  unfold G.csharp_P64ToI64_s64_string; scalar_tac
+/-- csharp: `P64ToI64 ∘ I64ToP64` recovers every s64 bit pattern -/
+theorem s64_string_roundtrip : RoundTrips G.csharp_I64ToP64_s64_string G.csharp_P64ToI64_s64_string := by
+  unfold G.csharp_I64ToP64_s64_string G.csharp_P64ToI64_s64_string; scalar_tac
+example : G.csharp_I64ToP64_s64_string ≠ [] ∧ G.csharp_P64ToI64_s64_string ≠ [] := by decide
+
+/-- csharp: `I32ToP` (s32 payload into the i32 slot) is the canonical ABI conversion, all 2^32 patterns -/
+theorem csharp_I32ToP_s32_string_is_spec : ∀ e ∈ G.csharp_I32ToP_s32_string, e.IsSpec := by
+  unfold G.csharp_I32ToP_s32_string; scalar_tac
+
+/- FULL STATEMENT (false of the pinned tree):
+     theorem csharp_PToI32_s32_string_is_spec : ∀ e ∈ G.csharp_PToI32_s32_string, e.IsSpec
+     theorem s32_string_roundtrip : RoundTrips G.csharp_I32ToP_s32_string G.csharp_PToI32_s32_string
+   the csharp backend emits the `PToI32` operand unchanged (`perform_cast`: `op.to_owned()`); the slot is a `nint` and the
+   payload an `int`, and C# has no implicit conversion nint -> int (only int -> nint): the emitted code is ill-typed. -/
+theorem csharp_PToI32_s32_string_is_spec_full_false : ¬ ∀ e ∈ G.csharp_PToI32_s32_string, e.IsSpec := by
+  intro h
+  have h0 := CastEntry.evalAt_of_isSpec _ (h _ (List.getElem_mem (l := G.csharp_PToI32_s32_string) (n := 0) (by decide))) 0 0
+  revert h0; decide
+/-- the expression has no value at all under the C# typing rules, for any slot value -/
+theorem csharp_PToI32_s32_string_ill_typed : ∀ e ∈ G.csharp_PToI32_s32_string, ∀ c j, (e.evalAt c j).1 = false := by
+  unfold G.csharp_PToI32_s32_string; scalar_tac
+example : G.csharp_I32ToP_s32_string ≠ [] ∧ G.csharp_PToI32_s32_string ≠ [] := by decide
+
+/-- csharp: `F32ToI32_I32ToP` (f32 payload into the i32 slot) is the canonical ABI conversion, all 2^32 patterns -/
+theorem csharp_F32ToI32_I32ToP_f32_string_is_spec : ∀ e ∈ G.csharp_F32ToI32_I32ToP_f32_string, e.IsSpec := by
+  unfold G.csharp_F32ToI32_I32ToP_f32_string; scalar_tac
+
+/-- csharp: `PToI32_I32ToF32` (i32 slot back to the f32 payload) is the canonical ABI conversion, all 2^32 slot values -/
+theorem csharp_PToI32_I32ToF32_f32_string_is_spec : ∀ e ∈ G.csharp_PToI32_I32ToF32_f32_string, e.IsSpec := by
+  unfold G.csharp_PToI32_I32ToF32_f32_string; scalar_tac
+/-- csharp: `PToI32_I32ToF32 ∘ F32ToI32_I32ToP` recovers every f32 bit pattern -/
+theorem f32_string_roundtrip : RoundTrips G.csharp_F32ToI32_I32ToP_f32_string G.csharp_PToI32_I32ToF32_f32_string := by
+  unfold G.csharp_F32ToI32_I32ToP_f32_string G.csharp_PToI32_I32ToF32_f32_string; scalar_tac
+example : G.csharp_F32ToI32_I32ToP_f32_string ≠ [] ∧ G.csharp_PToI32_I32ToF32_f32_string ≠ [] := by decide
+
+/-- csharp: `F64ToI64_I64ToP64` (f64 payload into the i64 slot) is the canonical ABI conversion, all 2^64 patterns -/
+theorem csharp_F64ToI64_I64ToP64_f64_string_is_spec : ∀ e ∈ G.csharp_F64ToI64_I64ToP64_f64_string, e.IsSpec := by
+  unfold G.csharp_F64ToI64_I64ToP64_f64_string; scalar_tac
+
+/-- csharp: `P64ToI64_I64ToF64` (i64 slot back to the f64 payload) is the canonical ABI conversion, all 2^64 slot values -/
+theorem csharp_P64ToI64_I64ToF64_f64_string_is_spec : ∀ e ∈ G.csharp_P64ToI64_I64ToF64_f64_string, e.IsSpec := by
+  unfold G.csharp_P64ToI64_I64ToF64_f64_string; scalar_tac
+/-- csharp: `P64ToI64_I64ToF64 ∘ F64ToI64_I64ToP64` recovers every f64 bit pattern -/
+theorem f64_string_roundtrip : RoundTrips G.csharp_F64ToI64_I64ToP64_f64_string G.csharp_P64ToI64_I64ToF64_f64_string := by
+  unfold G.csharp_F64ToI64_I64ToP64_f64_string G.csharp_P64ToI64_I64ToF64_f64_string; scalar_tac
+example : G.csharp_F64ToI64_I64ToP64_f64_string ≠ [] ∧ G.csharp_P64ToI64_I64ToF64_f64_string ≠ [] := by decide
 
 end Witverif.Props.C04Backends.CSharp
